@@ -11,6 +11,7 @@ import (
 
 func resetEnvModels() {
 	tickerTimers = map[*value]*timer{}
+	codecTable = map[*value]*codecEntry{}
 }
 
 // ---------------------------------------------------------------- context
@@ -244,4 +245,125 @@ func newTickerValue(fr *frame, dur int64, periodic bool) value {
 		name = "Ticker"
 	}
 	return newTimerStruct(fr, name, ch, t)
+}
+
+// ---------------------------------------------------------------- opaque protobuf codec
+//
+// golang/protobuf 1.3.5 is reflection/unsafe table driven and cannot be
+// interpreted. proto.Marshal yields a byte slice that carries a deep copy of
+// the message; proto.Unmarshal copies it back. Assumption (listed in the
+// evidence): protobuf round-trips well-typed messages.
+
+type codecEntry struct {
+	t   types.Type
+	msg value // deep copy of the message struct
+}
+
+var codecTable map[*value]*codecEntry
+
+func deepCopy(v value, memo map[*value]*value) value {
+	switch v := v.(type) {
+	case structure:
+		out := make(structure, len(v))
+		for i := range v {
+			out[i] = deepCopy(v[i], memo)
+		}
+		return out
+	case array:
+		out := make(array, len(v))
+		for i := range v {
+			out[i] = deepCopy(v[i], memo)
+		}
+		return out
+	case []value:
+		if v == nil {
+			return v
+		}
+		out := make([]value, len(v))
+		for i := range v {
+			out[i] = deepCopy(v[i], memo)
+		}
+		if len(v) > 0 {
+			if e, ok := codecTable[&v[0]]; ok {
+				codecTable[&out[0]] = e
+			}
+		}
+		return out
+	case *value:
+		if v == nil {
+			return v
+		}
+		if m, ok := memo[v]; ok {
+			return m
+		}
+		if _, isCtx := (*v).(*ctxObj); isCtx {
+			return v
+		}
+		cell := new(value)
+		memo[v] = cell
+		*cell = deepCopy(*v, memo)
+		return cell
+	case *omap:
+		if v == nil {
+			return v
+		}
+		out := &omap{keyType: v.keyType}
+		for i := range v.keys {
+			out.keys = append(out.keys, deepCopy(v.keys[i], memo))
+			out.vals = append(out.vals, deepCopy(v.vals[i], memo))
+		}
+		return out
+	case iface:
+		return iface{t: v.t, v: deepCopy(v.v, memo)}
+	}
+	return v
+}
+
+func init() {
+	marshal := func(fr *frame, a []value) value {
+		m := a[0].(iface)
+		if m.t == nil {
+			return tuple{[]value(nil), mkErrorValue(fr.i, "proto: Marshal called with nil")}
+		}
+		pv, ok := m.v.(*value)
+		if !ok || pv == nil {
+			return tuple{[]value(nil), mkErrorValue(fr.i, "proto: Marshal called with nil")}
+		}
+		buf := make([]value, 8)
+		for i := range buf {
+			buf[i] = uint8(0xC0 + i)
+		}
+		codecTable[&buf[0]] = &codecEntry{t: m.t, msg: deepCopy(*pv, map[*value]*value{})}
+		return tuple{buf, iface{}}
+	}
+	unmarshal := func(fr *frame, a []value) value {
+		data := a[0].([]value)
+		m := a[1].(iface)
+		pv := m.v.(*value)
+		if len(data) > 0 {
+			if e, ok := codecTable[&data[0]]; ok {
+				if !types.Identical(e.t, m.t) {
+					return mkErrorValue(fr.i, "proto: cannot parse (message type mismatch)")
+				}
+				*pv = deepCopy(e.msg, map[*value]*value{})
+				return iface{}
+			}
+		}
+		// real bytes: use the message's own Unmarshal method when it has one (gogo-generated code)
+		if f := fr.i.prog.LookupMethod(m.t, nil, "Unmarshal"); f != nil {
+			return call(fr.i, fr, 0, f, []value{m.v, data})
+		}
+		if len(data) == 0 {
+			// empty input = message with all defaults
+			*pv = zero(mustDeref(m.t))
+			return iface{}
+		}
+		return mkErrorValue(fr.i, "proto: cannot parse invalid wire-format data")
+	}
+	for _, p := range []string{"github.com/golang/protobuf/proto.", "github.com/gogo/protobuf/proto."} {
+		ext(p+"Marshal", marshal)
+		ext(p+"Unmarshal", unmarshal)
+		ext(p+"CompactTextString", func(fr *frame, a []value) value { return "pb" })
+		ext(p+"Size", func(fr *frame, a []value) value { return 8 })
+	}
 }
